@@ -144,12 +144,30 @@ class Env:
             return tgt.with_(self.Q.from_(self.P.Table("t7")).select("a"), c["name"])
         raise core.MachineryError("call " + m)
 
-    def run(self, calls, start=None):
+    def decoys(self, q):
+        """derive and discard siblings from q: what one continuation does must not influence another (the guards
+        and the rendering of a builder are functions of its own ancestry chain)"""
+        P = self.P
+        s = self.src
+        for f in (lambda: q.join(s["T2"]).on(s["T2"].a == s["T2"].b), lambda: q.join(s["T5"]).cross(), lambda: q.join(s["A3"]).using("a"),
+                  lambda: q.join(s["Q6"]).on(s["Q6"].a == s["Q6"].b), lambda: q.from_(s["T5"]), lambda: q.from_(s["C7"]),
+                  lambda: q.where(s["T2"].a == 1), lambda: q.select(s["T1"].z), lambda: q.select("*"), lambda: q.with_(self.Q.from_(P.Table("t7")).select("a"), "c7"),
+                  lambda: q.into(s["T2"]), lambda: q.update(s["T2"]), lambda: q.delete(), lambda: q.insert(9), lambda: q.on_conflict("z"),
+                  lambda: q.do_nothing(), lambda: q.do_update("z", 1), lambda: q.groupby(s["T1"].a), lambda: q.orderby(s["T1"].a),
+                  lambda: q.limit(1), lambda: q.set("z", 1), lambda: q.columns("z"), lambda: q.distinct()):
+            try:
+                f()
+            except Exception:  # noqa
+                pass
+
+    def run(self, calls, start=None, decoys=False):
         """apply a history; returns (final builder, [exception class or "" per call])"""
         # every history starts from the dialect's empty builder (what Query.from_/into/update/select create first)
         q = start if start is not None else self.Q._builder()
         excs = []
         for c in calls:
+            if decoys:
+                self.decoys(q)
             try:
                 q2 = self.apply(q, c)
                 excs.append("")
